@@ -465,6 +465,15 @@ def check_facing(ctx, R="C07.facing"):
                     f"parent has no pitch and roll: with a tilted parent the resulting orientation points elsewhere (the parent's whole rotation must be "
                     f"applied: .inverse, localAnglesFor, applyRotation)",
                 )
+            elif "parentOrientation" in v.deps and _right_multiplied(v.helper):
+                bad_ = _right_multiplied(v.helper)
+                ctx.finding(
+                    R,
+                    bad_[0],
+                    f"{f} composes the parent frame on the wrong side",
+                    f"veneer.{f}: `{unparse(bad_[0])}`: the orientation relative to the parent is parent^-1 * global (the inverse of the parent on the LEFT); rotations do not commute, so "
+                    f"with the factors swapped the object faces elsewhere as soon as the parent or the target orientation has pitch or roll",
+                )
             elif "parentOrientation" not in v.deps:
                 ctx.finding(R, v.helper, f"{f} lacks parentOrientation dependency", f"veneer.{f} specifies Euler angles without depending on parentOrientation")
             else:
@@ -478,6 +487,16 @@ def _componentwise(helper):
     ctxp = helper.args.args[0].arg if helper.args.args else "context"
     for n in ast.walk(helper):
         if isinstance(n, ast.Attribute) and n.attr in ("yaw", "pitch", "roll", "eulerAngles") and unparse(n.value) == f"{ctxp}.parentOrientation":
+            out.append(n)
+    return out
+
+
+def _right_multiplied(helper):
+    """`X * context.parentOrientation.inverse` (the inverse of the parent must be the LEFT factor)"""
+    out = []
+    ctxp = helper.args.args[0].arg if helper.args.args else "context"
+    for n in ast.walk(helper):
+        if isinstance(n, ast.BinOp) and isinstance(n.op, (ast.Mult, ast.MatMult)) and unparse(n.right) == f"{ctxp}.parentOrientation.inverse":
             out.append(n)
     return out
 
